@@ -16,6 +16,7 @@ struct C01Call
   int from_task;       // 1: the call is made from inside an outer parallel loop body of size from_task_n
   int from_task_n;
   int prefill_block;   // 1: first occupy every worker thread with a long-running scheduled closure
+  int throw_at;        // >= 0: the body throws at this index; the application catches the exception (tbb / serial lanes)
   int prefill;         // fire-and-forget closures scheduled right before the call (fills the caller's task pipe)
 };
 struct C01Plan
@@ -29,6 +30,7 @@ const C01Plan *c01_plan();
 // returns a call handle
 int c01_call_begin(int api, int itype, long long count, int block, int nested);
 void c01_call_end(int h);
+void c01_call_aborted(int h);               // the call ended with the exception a body threw
 // body events; return 1 if the harness may touch slot idx (index valid and first visit)
 int c01_body(int h, long long idx);
 int c01_block(int h, long long begin, long long end);
